@@ -12,6 +12,21 @@ fn gen_words(r: &mut Rng, maxwords: usize) -> Vec<u64> {
     // zero-run lengths (in words) chosen to cross the scan prologue (8), 8-word scan blocks
     // and 512-bit rank blocks
     const GAPS: [usize; 14] = [1, 7, 8, 9, 15, 16, 17, 23, 24, 25, 63, 64, 65, 200];
+    // one vector in 40 is "giant": more than 2^23 ones before the queried region, so the
+    // 32-bit L1 counts of the rank directory use their high bits (needs > 1 MiB of words,
+    // but is a handful of runs for TLC)
+    if r.chance(1, 40) {
+        let ones_words = (1usize << 17) + r.below(1 << 14) as usize; // >= 2^23 ones
+        let mut ws: Vec<u64> = vec![u64::MAX; ones_words];
+        for _ in 0..r.range(1, 6) {
+            match r.below(3) {
+                0 => ws.extend(std::iter::repeat(0u64).take(r.range(1, 20) as usize)),
+                1 => ws.extend(std::iter::repeat(u64::MAX).take(r.range(1, 20) as usize)),
+                _ => ws.push(r.next_u64()),
+            }
+        }
+        return ws;
+    }
     let fam = r.below(9);
     let mut ws: Vec<u64> = vec![];
     match fam {
@@ -97,7 +112,7 @@ fn gen_words(r: &mut Rng, maxwords: usize) -> Vec<u64> {
             }
         }
     }
-    if ws.len() > maxwords {
+    if ws.len() > maxwords && maxwords > 0 {
         ws.truncate(maxwords);
     }
     ws
@@ -181,6 +196,14 @@ fn main() {
         let nzeros = len - ones.min(len);
         // positions of interest
         let mut pos: Vec<u64> = vec![0, 1, len as u64, len as u64 + 1, len as u64 + 2, u64::MAX, 1 << 31, 1 << 40];
+        if len > (1 << 23) {
+            // block starts / first words of blocks past 2^23 bits
+            for _ in 0..16 {
+                let b = (1u64 << 23) / 512 + r.below(((len as u64 - (1 << 23)) / 512).max(1));
+                pos.push(b * 512 + r.below(64));
+                pos.push(b * 512);
+            }
+        }
         if len > 0 {
             pos.push(len as u64 - 1);
         }
